@@ -14,6 +14,7 @@ import sys
 from . import core, tlaparse, tlc
 from . import wsengine as W
 
+SPEDITS = ["sp_pop", "sp_setdefault", "sp_update", "sp_clear"]
 NONDAMAGE = ["open_sp", "open_id", "open_iter", "init", "readsp", "remove", "setkey", "assign", "update_sp", "docset",
              "writefile", "clear", "reset", "copy", "update_cache", "delete_cache", "restart"]
 
@@ -152,7 +153,7 @@ def _judge_c04(w, st, pre, post, res, val):
     last = st["last"]
     op, a = last["op"], last["args"]
     uni = w.uni
-    if op in ("setkey", "assign", "update_sp"):
+    if op in ("setkey", "assign", "update_sp", "sp_pop", "sp_setdefault", "sp_update", "sp_clear"):
         x = a[0]
         old = w.pre_handles.get(x)
         job = w.h.get(x)
@@ -504,7 +505,7 @@ class World2(W.World):
             self.grp[a[0]] = a[0]
         # DEVIATION D3 observed: a whole assignment answered KeyError (it never legitimately does) - the rejected value now
         # sits in that handle's memory
-        if res == "KeyError" and (op == "assign" or (op == "update_sp" and not legit_keyerror)):
+        if res == "KeyError" and (op in ("assign", "sp_clear") or (op == "update_sp" and not legit_keyerror)):
             self.taint.add("D3-leak")
         return res, val
 
@@ -757,7 +758,7 @@ def _random_trace(args):
                     cand.append(op)
                 elif op == "open_iter" and dead and any(dirs.values()):
                     cand.append(op)
-                elif op in ("init", "readsp", "remove", "setkey", "assign", "update_sp", "docset", "clear", "reset") and live:
+                elif op in ("init", "readsp", "remove", "setkey", "assign", "update_sp", "docset", "clear", "reset", "sp_pop", "sp_setdefault", "sp_update", "sp_clear") and live:
                     cand += [op] * (2 if op in ("setkey", "init", "docset") else 1)
                 elif op == "writefile" and any(os.path.isdir(w.h[x].path) for x in live):
                     cand.append(op)
@@ -788,6 +789,14 @@ def _random_trace(args):
                 a = (rnd.choice(live),)
             elif op == "setkey":
                 a = (rnd.choice(live), rnd.choice(keys), rnd.choice(list(vals) + [W.ABSENT]))
+            elif op == "sp_pop":
+                a = (rnd.choice(live), rnd.choice(keys))
+            elif op == "sp_setdefault":
+                a = (rnd.choice(live), rnd.choice(keys), rnd.choice(vals))
+            elif op == "sp_update":
+                a = (rnd.choice(live), tlaparse.FrozenDict({k_: rnd.choice(list(vals) + [W.ABSENT, W.ABSENT]) for k_ in keys}))
+            elif op == "sp_clear":
+                a = (rnd.choice(live),)
             elif op == "assign":
                 a = (rnd.choice(live), sp)
             elif op == "update_sp":
